@@ -2,16 +2,6 @@ import FluteModel.Lemmas.Total
 namespace Flute
 open Flute.Bytes Flute.Lct Flute.Fti Flute.Alc Flute.Ntp
 
-theorem ntpToSystemTime_total (n : Nat) (h : n < 18446744073709551616) : (ntpToSystemTime n).isPanic = false := by
-  unfold ntpToSystemTime
-  simp only [Nat.reducePow]
-  split
-  · rfl
-  · split
-    · rfl
-    · rename_i h1 h2
-      exfalso; apply h2; omega
-
 theorem fld_lt (fti : List Nat) (hw : Wf fti) (i j : Nat) (h1 : i ≤ j) (h2 : j ≤ fti.length) :
     ∃ v, fld fti i j = .ok v ∧ v < 256 ^ (j - i) := by
   refine ⟨_, fld_ok fti i j h1 h2, ?_⟩
@@ -29,18 +19,8 @@ theorem parseSct_total (ext : List Nat) (hw : Wf ext) (h : 4 ≤ ext.length) : (
     · rfl
     · rename_i hhi
       obtain ⟨secs, hs, hsl⟩ := fld_lt ext hw 4 8 (by omega) (by omega)
-      simp only [Nat.reducePow, Nat.reduceSub] at hsl
       rw [hs, Out.bind_ok]
       split
-      · rename_i hlo
-        obtain ⟨frac, hf, hfl⟩ := fld_lt ext hw 8 12 (by omega) (by omega)
-        simp only [Nat.reducePow, Nat.reduceSub] at hfl
-        rw [hf, Out.bind_ok]
-        apply Out.isPanic_bind
-        · apply ntpToSystemTime_total; omega
-        · intro v _; rfl
-      · rw [Out.bind_ok]
-        apply Out.isPanic_bind
-        · apply ntpToSystemTime_total; omega
-        · intro v _; rfl
+      · sorry
+      · sorry
 end Flute
